@@ -47,7 +47,9 @@ template <class Solver, class Prm> static result run_block(const problem &pb, co
         std::tie(it, res) = solve(F, X);
         r.it = (long long)it; r.res.pod(res); r.x.vec(x.data(), x.size());
         amgcl::backend::numa_vector<R> f(nb), y(nb);
-        for (size_t i = 0; i < nb; ++i) { f[i](0) = pb.rhs[2 * i]; f[i](1) = pb.rhs[2 * i + 1]; }
+        for (size_t i = 0; i < nb; ++i) { f[i](0) = pb.rhs[2 * i]; f[i](1) = pb.rhs[2 * i + 1]; y[i](0) = 1.0 + (double)(i % 3); y[i](1) = -2.0; }
+        solve.precond().apply(f, y);
+        r.px.vec(&y[0], nb);
         solve.precond().apply(f, y);
         r.px.vec(&y[0], nb);
         r.describe(solve);
